@@ -24,7 +24,7 @@ PROG_A = [[(0, T), (0, T + 1)], [(0, T + 2), (1, T + 3)]]
 
 GRID_B = [{"r": 1}]
 QUICK_B = [{"r": 1, "f": 1}, {"k": 1, "f": 1}, {"k": 1, "r": 1}, {"p": 1}]
-THOROUGH_B = QUICK_B + [{"p": 1, "f": 1}, {"k": 1, "p": 1}, {"r": 2}, {"f": 2}]
+THOROUGH_B = QUICK_B + [{"p": 1, "f": 1}, {"r": 2}, {"f": 2}]
 
 
 def scenarios(ctx):
